@@ -139,6 +139,16 @@ def gen_cases(rng, tier):
             h.append('t%d' % rng.choice([1, 2, 5, 10, 30, 120]))
         h += ['u%d' % k for k in down] + ['t%d' % rng.choice([50, 600]), 'q']
         cases.append({'id': 'c08-k-%d' % i, 'cfg': cfg, 'hist': h, 'sub': 'ksim', 'tags': {'mode': 'kanata-cancel'}})
+    # "regardless of other keys typed meanwhile": the OS auto-repeat of the held macro key (or of another held key) arriving at every
+    # millisecond of a macro that taps the same key twice and holds a modifier group
+    ri = 0
+    for body in ('x x 5 S-(y y)', 'S-(x x) z z', 'x 3 x 3 x'):
+        for off in range(1, 21 if tier != 'quick' else 15):
+            for who in (30, 31):
+                cfg = '(defsrc a s)\n(deflayer l0 (macro %s) b)' % body
+                h = ['t3'] + (['d31', 't4'] if who == 31 else []) + ['d30', 't%d' % off, 'r%d' % who, 't2', 'r%d' % who, 't60', 'u30', 'u31', 't100', 'q']
+                cases.append({'id': 'c08-osrep-%d' % ri, 'cfg': cfg, 'hist': h, 'sub': 'ksim', 'tags': {'mode': 'os-repeat-during-macro', 'offset': off}})
+                ri += 1
     return cases
 
 
